@@ -69,6 +69,10 @@ theorem C13_isNesting_of_stack (s : Stk) (v : Val) (hv : v ∈ s.xs) (h : v.isSt
   rw [C13_isNesting]; refine ⟨v, hv, ?_⟩
   cases v <;> simp_all [Val.isStack, countsAsNested]
 
+/-- a zero-valued Stack (any form) is not a nested stack: it neither makes `IsNesting` true (repair F37) nor is it
+skipped by a no-nesting Push (it is not a Stack in the converters' sense) -/
+theorem C13_zero_not_nested (f : Form) : countsAsNested (.zstk f) = false ∧ (Val.zstk f).isStack = false := ⟨rfl, rfl⟩
+
 /-- and with only primitives, nil values and Conditions it is false -/
 theorem C13_isNesting_none (s : Stk) (h : ∀ v ∈ s.xs, countsAsNested v = false) : s.IsNesting = false := by
   unfold IsNesting; simpa using h
